@@ -12,7 +12,7 @@ CONSTANTS Mode,      \* "c01" | "c02" | "c03" | "c09" | "router"
 
 VARIABLE case
 
-NoRange == [present |-> FALSE, unit_ok |-> TRUE, ws |-> FALSE, specs |-> <<>>]
+NoRange == [present |-> FALSE, unit_ok |-> TRUE, ws |-> FALSE, style |-> "plain", specs |-> <<>>]
 Num(v)  == [k |-> "n", v |-> v]
 Big(v)  == [k |-> "big", v |-> v]        \* 1: u64::MAX, 2: u64::MAX + 1
 Junk    == [k |-> "junk", v |-> 0]
@@ -20,7 +20,11 @@ FL(a, b) == [t |-> "fl", a |-> a, b |-> b]
 Fo(a)    == [t |-> "f", a |-> a, b |-> Junk]
 Su(a)    == [t |-> "s", a |-> a, b |-> Junk]
 JunkSpec == [t |-> "junk", a |-> Junk, b |-> Junk]
-Rng(specs) == [present |-> TRUE, unit_ok |-> TRUE, ws |-> FALSE, specs |-> specs]
+\* style: how the harness spells the header.  "plain" | optional-whitespace / digit spellings with the same meaning
+\* ("sp_after_comma", "tab_after_comma", "sp_after_eq", "sp_around_dash", "leading_zeros", "trailing_sp") |
+\* "empty_element" (an extra empty list element: malformed, Static treats the header as not satisfiable)
+Rng(specs) == [present |-> TRUE, unit_ok |-> TRUE, ws |-> FALSE, style |-> "plain", specs |-> specs]
+SameMeaningStyles == {"sp_after_comma", "tab_after_comma", "sp_after_eq", "sp_around_dash", "leading_zeros", "trailing_sp"}
 
 Req(w, entry, method, lead, segs, query, frag, range, origin) ==
     [w |-> w, entry |-> entry, method |-> method, lead |-> lead, segs |-> segs, query |-> query, frag |-> frag,
@@ -113,6 +117,8 @@ C03Cases(u) ==
     \cup UNION {{Req(31, "prod", "GET", "/", <<RangeName(i)>>, "", "", Rng(ss), "") : ss \in Multi(RangeLens[i], K)} : i \in {3, 4, 5, 7}}
     \cup {Req(31, "prod", "GET", "/", <<RangeName(i)>>, "", "", [Rng(ss) EXCEPT !.ws = TRUE], "") :
             i \in {5}, ss \in UNION {[1..n -> Reduced(10)] : n \in 1..2}}
+    \cup {Req(31, "prod", "GET", "/", <<RangeName(i)>>, "", "", [Rng(ss) EXCEPT !.style = st], "") :
+            i \in {5}, st \in SameMeaningStyles \cup {"empty_element"}, ss \in UNION {[1..n -> Reduced(10)] : n \in 1..2}}
     \cup {Req(31, "prod", "GET", "/", <<RangeName(i)>>, "", "", [Rng(<<s>>) EXCEPT !.unit_ok = FALSE], "") :
             i \in {1, 5}, s \in {FL(Num(0), Num(0)), Fo(Num(0))}}
     \cup {Req(31, "prod", "GET", "/", <<RangeName(i)>>, "", "", Rng(<<>>), "") : i \in {1, 5}}
